@@ -8,7 +8,7 @@ TRUSTED_BASE = [
     "Lean compiler + C toolchain for the executable driver (affects the correspondence only)",
 ]
 
-DEF_OPS = {"cal", "ucal", "defname", "named", "reset", "dual", "dual2", "num", "fx", "fxupdate", "fxorder",
+DEF_OPS = {"flt", "cal", "ucal", "defname", "named", "reset", "dual", "dual2", "num", "fx", "fxupdate", "fxorder",
            "curve", "cvorder", "spline", "csolve"}
 
 
@@ -203,3 +203,109 @@ PROPS["C07"] = Prop(
              "transcription of the pandas rule scripts (lean/RateslibModel/Model/Holidays.lean) is part of the specification",
              "chrono's weekday/date arithmetic (cross-checked exhaustively by C08's run)"],
     assumptions=["holidays outside 1970-2200 are outside the property", "times of day not modelled"])
+
+
+# ---------------------------------------------------------------------------------------------
+# dual numbers
+
+_dual_trusted = [
+    "hand-written model of rust/dual/dual.rs and rust/dual/dual_ops/*.rs (lean/RateslibModel/Model/Dual.lean), tied to "
+    "the code by the correspondence run; every owned/borrowed operand form of the auto_ops expansions is exercised",
+    "ndarray / indexmap / Arc: modelled as lists, duplicate-free name lists and an explicit pointer-equality flag",
+]
+_dual_assume = ["f64 rounding is modelled, not verified: theorems are over commutative rings / fields (ℝ), the "
+                "correspondence uses small dyadic rationals so that every f64 operation is exact and compares bit for bit",
+                "NaN and infinities are outside the generators"]
+
+
+def _kind_of(impl):
+    return impl.split(" ", 1)[0] if impl else "?"
+
+
+def _cls_c03(t, impl):
+    if t[0] == "bin":
+        return "bin:%s:%s" % (t[1], _kind_of(impl)), True
+    if t[0] == "cmp":
+        return "cmp:%s=%s" % (t[1], impl), True
+    return None, False
+
+
+def _cls_c17(t, impl):
+    if t[0] in ("grad1", "grad2", "manifold", "manifoldprod"):
+        return "%s:n=%d" % (t[0], len(t) - 2), len(t) > 2
+    return None, False
+
+
+def _oracle_c17(t, impl):
+    """model-free: the product rule on manifolds must reproduce the manifold of the product"""
+    if t[0] != "manifoldprod" or not impl.startswith("MP"):
+        return None
+    for seg in impl[2:].split(";"):
+        if "=" not in seg:
+            continue
+        l, r = seg.split("=")
+        lf = [f_of_hex(x) for x in l.split()]
+        rf = [f_of_hex(x) for x in r.split()]
+        if len(lf) != len(rf):
+            return "shape mismatch between manifold of product and product rule"
+        for a, b in zip(lf, rf):
+            if not (a == b or abs(a - b) <= 1e-9 * max(abs(a), abs(b), 1.0)):
+                return "manifold(a*b) = %r but product rule gives %r" % (a, b)
+    return None
+
+
+def f_of_hex(tok):
+    import struct
+    return struct.unpack(">d", bytes.fromhex(tok[1:]))[0]
+
+
+def _cls_c18(t, impl):
+    op = t[0]
+    if op in ("numop", "numopf", "fnumop"):
+        return "%s:%s:%s" % (op, t[1], _kind_of(impl)), True
+    if op in ("cmp", "cmpf", "fcmp"):
+        return "%s:%s=%s" % (op, t[1], impl), True
+    if op == "setord":
+        return "setord:%s:%s" % (t[2], _kind_of(impl)), True
+    if op in ("conv", "powc", "un"):
+        return "%s:%s" % (op, _kind_of(impl)), True
+    return None, False
+
+
+def _cls_c19(t, impl):
+    op = t[0]
+    if op in ("cmp", "cmpf", "fcmp"):
+        return "%s:%s=%s" % (op, t[1], impl), True
+    if op in ("un", "bin", "binf", "fbin"):
+        return "%s:%s:%s" % (op, t[1], _kind_of(impl)), True
+    if op == "sum":
+        return "sum:%s:len=%d" % (t[1], len(t) - 2), len(t) > 3
+    return None, False
+
+
+PROPS["C03"] = Prop(
+    rule="EXHAUSTIVE layouts: every ordered pair of duplicate-free variable lists over a pool of 3 (quick; 16x16) or 4 "
+         "(thorough, 1/3 sample of 65x65) names x shared/unshared storage where the lists are equal x {+,-,*,%,==,!=} x "
+         "{Dual, Dual2}, values small dyadic rationals (exact arithmetic, bit comparison of value, per-name gradient, "
+         "per-name-pair Hessian, set of names, shapes); plus pairs equal by name under permutation and zero-padding. "
+         "non-trivial = every op line",
+    classify=_cls_c03, exhaustive=lambda tier: tier == "quick", trusted=_dual_trusted, assumptions=_dual_assume)
+
+PROPS["C17"] = Prop(
+    rule="every stored order over a pool of 4 names (quick: 1/4 of the 65 stored lists; thorough: all) against ALL 65 "
+         "requested duplicate-free lists for gradient1 (Dual and Dual2), gradient2 and gradient1_manifold; random Dual2 "
+         "pairs for the manifold product rule (model-free oracle). non-trivial = non-empty request",
+    classify=_cls_c17, exhaustive=lambda tier: tier == "thorough", trusted=_dual_trusted, assumptions=_dual_assume,
+    oracle=_oracle_c17)
+
+PROPS["C18"] = Prop(
+    rule="EXHAUSTIVE over kind x kind x operator: 20 values (8 floats incl. +-0, 6 Dual, 6 Dual2, some sharing storage) "
+         "all ordered pairs x {+,-,*,/,%} through the Number container, 6 comparisons, float on either side, "
+         "set_order(_clone) to orders 0/1/2 with 5 name lists, From conversions; refusal observed via catch_unwind",
+    classify=_cls_c18, exhaustive=lambda tier: True, trusted=_dual_trusted, assumptions=_dual_assume)
+
+PROPS["C19"] = Prop(
+    rule="random Dual/Dual2 pairs over all layouts of a 3-name pool with all sign combinations: 6 comparisons, float "
+         "comparisons on both sides, abs, signum, % in the three operand forms, zero/one neutrality, sums of length 0..8 "
+         "(typed and through Number). non-trivial = every op line",
+    classify=_cls_c19, exhaustive=lambda tier: False, trusted=_dual_trusted, assumptions=_dual_assume)
